@@ -469,8 +469,11 @@ impl Connection {
         let mut datagram_start = 0;
         let mut segment_size = usize::from(self.path.current_mtu());
 
-        if let Some(challenge) = self.send_path_challenge(now, buf) {
-            return Some(challenge);
+        // Once closed, the connection sends nothing but its close packet; once drained, nothing
+        if !self.state.is_closed() {
+            if let Some(challenge) = self.send_path_challenge(now, buf) {
+                return Some(challenge);
+            }
         }
 
         // If we need to send a probe, make sure we have something to send.
